@@ -12,8 +12,11 @@ import (
 	"fmt"
 	"os"
 	"runtime/debug"
+	"sort"
 	"strings"
 )
+
+func sortStrings(s []string) { sort.Strings(s) }
 
 type handler func(raw json.RawMessage, emit func(any))
 
